@@ -2,6 +2,8 @@ mod abi;
 mod breadcrumb;
 mod c10;
 mod c12;
+mod c14;
+mod casex;
 mod c15;
 mod c18;
 mod mapwatch;
